@@ -140,6 +140,9 @@ func cmdClusterDuties(args []string) int {
 			if round == 0 {
 				kind = "same-slot-0" // the very first slot: a stored 0 is a watermark, not "nothing signed"
 			}
+			if round == 1 {
+				kind = "genesis-votes" // the very first vote a validator can cast (0 -> 0), twice with different data
+			}
 			switch kind {
 			case "same-target":
 				d1, d2 = mkAtt(epoch-1, epoch, 0x11), mkAtt(epoch-1, epoch, 0x22)
@@ -153,6 +156,8 @@ func cmdClusterDuties(args []string) int {
 				d1, d2 = mkProp(epoch*32, 0x11), mkProp(epoch*32, 0x22)
 			case "same-slot-0":
 				d1, d2 = mkProp(0, 0x11), mkProp(0, 0x22)
+			case "genesis-votes":
+				d1, d2 = mkAtt(0, 0, 0x11), mkAtt(0, 0, 0x22)
 			}
 			stats["pair."+kind]++
 			// routing: each duty to a subset (often everyone), with repeats, shuffled together
@@ -175,7 +180,7 @@ func cmdClusterDuties(args []string) int {
 						}
 						if di == 1 && rng.Chance(35) {
 							// between the two duties: a stale attestation for the SAME account, refused, inside a batch
-							plan = append(plan, send{id, -1, 0, true, true, false, len(plan)})
+							plan = append(plan, send{id, -1, 0, rng.Chance(50), true, false, len(plan)})
 						}
 					}
 				}
@@ -215,8 +220,9 @@ func cmdClusterDuties(args []string) int {
 					if duties[0].Att == nil || shareKeyW[s.node] == nil {
 						return
 					}
-					// the poison: far below anything signed for this account
-					d = duty{Att: &AttData{Dom: duties[0].Att.Dom, Slot: 64, Idx: 1, BBR: fill32(0x33), Src: &Checkpoint{Epoch: 1, Root: fill32(1)}, Tgt: &Checkpoint{Epoch: 2, Root: fill32(0x33)}}}
+					// the poison: far below anything signed for this account - 1 -> 2, or the genesis-shaped 0 -> 0
+					pe := uint64(s.seq % 2)
+					d = duty{Att: &AttData{Dom: duties[0].Att.Dom, Slot: 64 * pe, Idx: 1, BBR: fill32(0x33), Src: &Checkpoint{Epoch: pe, Root: fill32(1)}, Tgt: &Checkpoint{Epoch: 2 * pe, Root: fill32(0x33)}}}
 				}
 				var batchObs []Obs
 				var pre, post *StoreView
